@@ -205,6 +205,9 @@ def inflate_dict(ck, P):
 def run(ck):
     P = prog("K1")
     ck.configs.add("K1")
+    # round 12: a copied inflate stream keeps the whole window, so the dictionary is the same on the copy
+    from . import c14 as _c14w
+    _c14w.whole_buffer_clones(ck, P)
     window_refresh_source(ck, P)
     # round 10: a dictionary longer than the window keeps its tail in every branch of Window::extend
     from . import c08 as _c08s
